@@ -35,6 +35,7 @@ GEN_SPEC = {"items": [
     {"kind": "calls", "file": _P, "func": "ewma", "as": "ewma_calls"},
     {"kind": "calls", "file": _P, "func": "subConn.healthy", "as": "healthy_calls"},
     {"kind": "calls", "file": _P, "func": "subConn.load", "as": "load_calls"},
+    {"kind": "calls", "file": _P, "func": "p2cPickerBuilder.Build", "as": "build_picker_calls"},
     # client wiring (rpc/internal/client.go)
     {"kind": "const", "file": _P, "name": "Name"},
     {"kind": "calls", "file": _C, "func": "NewClient", "as": "newclient_calls"},
@@ -55,7 +56,9 @@ DRIVER_TIMEOUT = 900
 RULE = ("histories of 8-60 pick/done/advance steps over n in {0,1,2,3,4,5,8} ready connections on the virtual clock "
         "(clock starting at 1 h, or at 1 ns..10 s in a quarter of the random cases; advances from 0 ns to 8000 s: same-instant, ns, ms, around the 1 s force-pick bound, around the 6.93 s "
         "half-life, the 60 s log interval, w denormal/0), scripted Intn draws, grpc codes -1/-2/0..16 with "
-        "per-connection failure profiles, a few double-called done funcs; directed families: score exactly at the "
+        "per-connection failure profiles, a few double-called done funcs; ReadySCs maps in which several SubConns share one "
+        "Address.Addr (exact duplicates, or differing in ServerName / Attributes) for N = 2..8 in about half of the cases, "
+        "incl. a sweep family that hands every position to choose; directed families: score exactly at the "
         "500 threshold with >= 3 conns, 2-conn force-pick boundary (1 s +- 1 ns), 500+ consecutive failing "
         "completions 1-3 ns apart (slowest possible decay), float-rounding regressions (corpus); non-trivial = "
         ">= 2 successful picks and >= 1 completion; distinct = distinct canonical case JSON; plus client-wiring cases: "
@@ -118,6 +121,60 @@ def _dt(rng):
     return rng.choice([7000 * S, 7300 * S, 8000 * S])
 
 
+def _addr_layout(rng, n, force_shared=False):
+    """Addresses of the n ready SubConns: distinct, or several SubConns on one Addr (differing in ServerName and/or
+    Attributes, or exact duplicates). Returns the case fields."""
+    if n < 2 or (not force_shared and rng.random() < 0.45):
+        return {}
+    r = rng.random()
+    if r < 0.3:
+        addrs = [1] * n                                     # everybody on one Addr
+    elif r < 0.6:
+        addrs = [rng.randint(1, 2) for _ in range(n)]
+        addrs[rng.randrange(n)] = addrs[(rng.randrange(n))]
+    else:
+        addrs = [rng.randint(1, max(2, n // 2)) for _ in range(n)]
+    if len(set(addrs)) == n:
+        addrs[1] = addrs[0]
+    mode = rng.choice(["dup", "sname", "attr", "mixed"])
+    snames = [0] * n
+    attrs = [0] * n
+    for i in range(n):
+        if mode == "sname":
+            snames[i] = i + 1
+        elif mode == "attr":
+            attrs[i] = i + 1
+        elif mode == "mixed":
+            snames[i] = rng.choice([0, 1, 2])
+            attrs[i] = rng.choice([0, 0, 1, 2])
+    return {"addrs": addrs, "snames": snames, "attrs": attrs}
+
+
+def _sweep_case(rng):
+    """N = 2..8 ready SubConns sharing Addr values; picks that hand every position to choose (fresh partner) so that
+    each tracked connection is picked, then a second round after > 1 s."""
+    n = rng.randint(2, 8)
+    ops = []
+    np_ = 0
+    for rnd in range(2):
+        for i in range(n):
+            if n >= 3:
+                other = (i + 1 + rng.randrange(n - 1)) % n
+                b0 = other if other < i else other - 1
+                ops.append({"op": "pick", "draws": [i, b0] + _draws(rng, n)[:4]})
+            else:
+                ops.append({"op": "pick", "draws": []})
+            np_ += 1
+            if rng.random() < 0.5:
+                ops.append({"op": "adv", "dt": rng.choice([0, 1, MS, 20 * MS])})
+            if rng.random() < 0.4:
+                ops.append({"op": "done", "k": rng.randrange(np_), "code": rng.choice([-1, -1, 14])})
+        ops.append({"op": "adv", "dt": rng.choice([S + 1, 2 * S, S // 2, S])})
+    case = {"n": n, "start": START, "ops": ops}
+    case.update(_addr_layout(rng, n, force_shared=True))
+    return case
+
+
 def _random_case(rng):
     n = rng.choice([0, 1, 1, 2, 2, 2, 3, 3, 3, 3, 4, 5, 5, 8])
     nops = rng.randint(8, 60)
@@ -147,7 +204,9 @@ def _random_case(rng):
         else:
             ops.append({"op": "adv", "dt": _dt(rng)})
     start = START if rng.random() < 0.75 else rng.choice([1, 5 * MS, S, 3 * S, 10 * S])
-    return {"n": n, "start": start, "ops": ops}
+    case = {"n": n, "start": start, "ops": ops}
+    case.update(_addr_layout(rng, n))
+    return case
 
 
 def _threshold_case(rng):
@@ -181,7 +240,9 @@ def _threshold_case(rng):
         d = [victim, other] if rng.random() < 0.6 else [rng.randrange(n), rng.randrange(n - 1)]
         ops.append({"op": "pick", "draws": d + _draws(rng, n)[:4]})
         np_ += 1
-    return {"n": n, "start": START, "ops": ops}
+    case = {"n": n, "start": START, "ops": ops}
+    case.update(_addr_layout(rng, n))
+    return case
 
 
 def _force_case(rng):
@@ -201,7 +262,9 @@ def _force_case(rng):
             ops.append({"op": "done", "k": k, "code": c})
         else:
             ops.append({"op": "adv", "dt": rng.choice([S, S + 1, S - 1, S // 2, S // 2 + 1, S // 3, 2 * S, 10 * MS, 1, 0, 700 * MS])})
-    return {"n": 2, "start": START, "ops": ops}
+    case = {"n": 2, "start": START, "ops": ops}
+    case.update(_addr_layout(rng, 2))
+    return case
 
 
 def _slow_decay_case(rng):
@@ -336,8 +399,10 @@ def generate(rng, tier, n):
     cases = []
     for i in range(n):
         r = rng.random()
-        if r < 0.62:
+        if r < 0.52:
             cases.append(_random_case(rng))
+        elif r < 0.62:
+            cases.append(_sweep_case(rng))
         elif r < 0.77:
             cases.append(_threshold_case(rng))
         elif r < 0.9:
@@ -361,6 +426,7 @@ def search(rng, problems):
         out.append(_threshold_case(rng))
         out.append(_force_case(rng))
         out.append(_round_case(rng))
+        out.append(_sweep_case(rng))
     out.append(_slow_decay_case(rng))
     return out
 
@@ -425,7 +491,13 @@ def encode(case, obs):
             cZ(st["idx"]), cZ(st["id"]), cZ(_ERR.get(st["err"], 2)), cZ(st["used"]), cZ(st["over"]), cZ(st["conn"]),
             cZ(st["td"]), cZ(st["wbits"]), cZ(st["now"]), clist(delta), cZ(st["stamp"]))
         steps.append("(%s, %s)" % (x, o))
-    return "CB (mkcase %s %s %s %s)" % (cnat(case["n"]), cZ(case["start"]), clist([cnat(i) for i in obs["order"]]), clist(steps))
+    n = case["n"]
+    addrs = case.get("addrs") or list(range(n))
+    snames = case.get("snames") or [0] * n
+    inaddr = [cpair(cZ(addrs[i] if i < len(addrs) else i), cZ(snames[i] if i < len(snames) else 0)) for i in range(n)]
+    connaddr = [cpair(cZ(a), cZ(k)) for a, k in (obs.get("connaddr") or [])]
+    return "CB (mkcase %s %s %s %s %s %s)" % (cnat(n), cZ(case["start"]), clist([cnat(i) for i in obs["order"]]),
+                                            clist(inaddr), clist(connaddr), clist(steps))
 
 
 def nontrivial(case, obs):
@@ -448,7 +520,8 @@ def bucket(case, obs):
         if obs.get("counts") and min(obs["counts"]) == 0:
             out.append("client:UNSERVED-BACKEND")
         return sorted(set(out))
-    out = ["n=%d" % case["n"], "ops<=%d" % (10 ** len(str(len(case["ops"]))))]
+    shared = case.get("addrs") and len(set(case["addrs"])) < len(case["addrs"])
+    out = ["n=%d" % case["n"], "addr:shared" if shared else "addr:distinct", "ops<=%d" % (10 ** len(str(len(case["ops"]))))]
     seen = set()
     called = set()
     for op, st in zip(case["ops"], obs["steps"]):
@@ -471,6 +544,8 @@ def bucket(case, obs):
                 if _signed(r[1]) < 0:
                     out.append("inflight:<0")
     out.append("conns-picked=%d" % len(seen))
+    if shared:
+        out.append("shared:all-picked" if len(seen) == case["n"] else "shared:some-unpicked")
     return sorted(set(out))
 
 
